@@ -15,7 +15,7 @@ PROPS = {
     },
 }
 PROPS["C12"] = {
-    "units": {"kani": ["c12_booth", "c12_bitreverse", "c12_windows", "c12_chunks"], "verus": ["c12_booth_sum"]},
+    "units": {"kani": ["c12_booth", "c12_bitreverse", "c12_windows"], "verus": ["c12_booth_sum", "c12_chunks_v"]},
     "scope": "the signed-digit (Booth) recoding consumed by every Rust MSM path, the bit-reversal permutation of best_fft, and the chunking arithmetic that makes results independent of the thread count",
     "not_decided": ["bucket / batch-affine / Schedule logic and the butterflies (generic over curve and field traits, iterator adapters)",
                     "msm_specific / multi_exp (blst)", "EvaluationDomain algebra (generic + rayon)"],
